@@ -105,6 +105,8 @@ def _cbucket(c):
 def ls_case(draw):
     x = draw(gen.signal(dtype="any", kinds=LS_KINDS, n=_length(draw), noise_levels=(0.0, 1e-7, 1e-5, 1e-3, 0.1, 1.0, 1e-6)))
     x["gain"] = draw(gen.gains)         # the data may be in any unit: every clause is scale-free
+    if draw(st.integers(0, 7)) == 7:
+        x["anchor"] = draw(gen.anchors)  # ... and relative to any reference sample (which is then exactly 0.0)
     return {"x": x, "p": _order(draw, x["n"])}
 
 
@@ -116,6 +118,8 @@ def marple_case(draw):
     if x["kind"] == "int":
         x["range"] = draw(st.sampled_from([[-9, 9], [0, 5], [-30, 30]]))
     x["gain"] = draw(gen.gains)
+    if draw(st.integers(0, 7)) == 7:
+        x["anchor"] = draw(gen.anchors)
     return {"x": x, "p": _order(draw, x["n"])}
 
 
